@@ -1,6 +1,7 @@
 (* C18 property theorems.  Nothing but statements, `exact`, and Print Assumptions. *)
 From Coq Require Import ZArith List Bool String Arith Relations.
 From Actors Require Import WaitFor Edges_gen Proofs_WaitFor Proofs_Edges Shutdown Proofs_Shutdown.
+From Actors Require Import Dispatch Proofs_Dispatch.
 Import ListNotations.
 
 (* T1: in an actor system whose blocking calls all follow edges along which a rank
@@ -73,6 +74,16 @@ Theorem C18_mopidy_no_deadlock :
 Proof. exact mopidy_no_deadlock_lemma. Qed.
 Print Assumptions C18_mopidy_no_deadlock.
 
+(* chains of blocked callers are short: at most 4 links in mopidy *)
+Theorem C18_wait_chain_bounded :
+  forall (comp_of : actor -> comp) (code_of : actor -> hid -> list instr),
+    (forall a h t h', In (ICall t h') (code_of a h) ->
+                      edge_in_b Edges_gen.edges (comp_of a) (comp_of t) = true) ->
+    forall sched s, run code_of init sched = Some s ->
+    forall a p, wait_chain s a p -> List.length p <= 4.
+Proof. exact mopidy_wait_chain_bounded_lemma. Qed.
+Print Assumptions C18_wait_chain_bounded.
+
 (* the end-of-track callback is served by the core's own thread while the caller blocks:
    the translated GstThread -> Core call site waits without any timeout (finite check on the
    generated sites), and in the model such a call keeps the caller blocked until the core's
@@ -114,6 +125,45 @@ Theorem C18_cyclic_calls_do_deadlock :
             clos_trans actor (waits s) 1 1.
 Proof. exact cyclic_calls_deadlock. Qed.
 Print Assumptions C18_cyclic_calls_do_deadlock.
+
+(* listener.send dispatch (upward notifications): without the stop-during-send race every send
+   returns and each listener ends exactly as it would on its own, whatever the others do *)
+Theorem C18_dispatch_isolation :
+  forall evs ls, no_race ls ->
+    fst (send_all ls evs) = map (fun _ => SOk) evs /\
+    snd (send_all ls evs) = map (fun p => (fst p, alone (fst p) (snd p) evs)) ls.
+Proof. exact dispatch_isolation_lemma. Qed.
+Print Assumptions C18_dispatch_isolation.
+
+(* a listener with the default on_event never dies; it handles exactly the events whose handler
+   works, in order, and catches unknown events, wrong arguments and raising handlers *)
+Theorem C18_default_listener_robust :
+  forall l evs st, l_custom l = false -> ls_alive st = true ->
+    let st' := alone l st evs in
+    ls_alive st' = true /\
+    ls_handled st' = ls_handled st ++ filter (fun e => match l_beh l e with HOk => true | _ => false end) evs /\
+    ls_caught st' = ls_caught st ++ filter (fun e => match l_beh l e with HOk => false | _ => true end) evs.
+Proof. exact default_listener_robust_lemma. Qed.
+Print Assumptions C18_default_listener_robust.
+
+(* any listener handles, in order, the working events of a prefix of what was sent: all of it
+   if it is still alive, up to the first failing event if it overrides on_event and died *)
+Theorem C18_handled_in_order :
+  forall l evs st, ls_alive st = true ->
+    exists k, k <= List.length evs /\
+      ls_handled (alone l st evs) = ls_handled st ++ filter (ok_ev l) (firstn k evs) /\
+      (ls_alive (alone l st evs) = true -> k = List.length evs) /\
+      (ls_alive (alone l st evs) = false -> l_custom l = true /\ k < List.length evs /\ ok_ev l (nth k evs 0) = false).
+Proof. exact handled_in_order_lemma. Qed.
+Print Assumptions C18_handled_in_order.
+
+(* with the race (an actor stopping between the registry lookup and its tell) send raises in the
+   sender and the listeners after it miss the event: isolation does not hold unconditionally *)
+Theorem C18_dispatch_race_loses_event :
+  fst (send_all racy_system [0; 1; 2]) = [SOk; SActorDead; SOk] /\
+  map (fun p => ls_handled (snd p)) (snd (send_all racy_system [0; 1; 2])) = [[0]; [0; 2]].
+Proof. exact race_loses_event_lemma. Qed.
+Print Assumptions C18_dispatch_race_loses_event.
 
 (* T4: for every start-up outcome assignment and main-loop exit, the actors that are running
    are stopped in the order frontends, core, backends, audio, mixer, and
